@@ -323,7 +323,7 @@ def leaf_kind(obj):
 def origin_key(e):
     """file:function:exception of the innermost typedpy frame.  An exception that no `raise` statement of
     typedpy produced (a comparison, a hash, an index that failed) is further keyed by WHICH kind of field
-    was validating WHICH class of value: one such key = one root cause, so that a known finding about one
+    was validating WHICH category of value (number / unhashable / other): one such key = one root cause, so that a known finding about one
     field kind never covers the same symptom appearing in another."""
     o = origin_of(e)
     if o is None:
@@ -333,8 +333,21 @@ def origin_key(e):
     if raise_statement_at(rel, line) is None:
         loc = fr.f_locals
         val = loc["value"] if "value" in loc else loc.get("source_val", loc.get("val", _MISSING))
-        key += "/%s/%s" % (leaf_kind(loc.get("self")), "-" if val is _MISSING else type(val).__name__)
+        key += "/%s/%s" % (leaf_kind(loc.get("self")), "-" if val is _MISSING else value_category(val))
     return key
+
+
+def value_category(v):
+    """number | unhashable | other: what decides whether ordering / hashing / converting v can fail."""
+    import decimal
+    import numbers
+    if isinstance(v, (numbers.Number, decimal.Decimal)):
+        return "number"
+    try:
+        hash(v)
+    except Exception:  # noqa
+        return "unhashable"
+    return "other"
 
 
 _MISSING = object()
@@ -763,20 +776,23 @@ def evaluate_case(case, rep, streams, stats_only=False):
             obs = r[1] if r else None
             # construct / deserialize correspondence
             if mode == "ctor":
-                args = E.lst(["(%s, %s)" % (E.pstr(n), E.opt(orc[n]["ctor"] and orc[n]["ctor"]["inner"], E.pstr))
+                args = E.lst(["(%s, %s)" % (E.pstr(n), E.opt(orc[n]["ctor"] and (orc[n]["ctor"]["inner"], orc[n]["ctor"]["te_ve"]),
+                                                             lambda mc: "(%s, %s)" % (E.pstr(mc[0]), E.blit(mc[1]))))
                               for n in case.bound_order()])
                 streams["construct"].append((
                     "{| cc_ff := %s; cc_cls := %s; cc_args := %s; cc_obs := %s |}" % (E.blit(ff), E.pstr(cls), args, emit_exn_text(obs)),
                     {"case": case, "mode": mode, "ff": ff}))
             else:
-                def dargs(order):
-                    return E.lst(["{| d_name := %s; d_pre := %s; d_ctor := %s; d_falsy := %s; d_caught := %s |}" % (
+                def darg(n):
+                    return "{| d_name := %s; d_pre := %s; d_ctor := %s; d_falsy := %s; d_caught := %s |}" % (
                         E.pstr(n), E.opt(orc[n]["pre"] and orc[n]["pre"]["inner"], E.pstr),
                         E.opt(orc[n]["post"] and orc[n]["post"]["inner"], E.pstr), E.blit(orc[n]["falsy"]),
-                        E.blit(not orc[n]["pre"] or orc[n]["pre"]["te_ve"])) for n in order])
+                        E.blit(not orc[n]["pre"] or orc[n]["pre"]["te_ve"]))
                 streams["deser"].append((
                     "{| dc_ff := %s; dc_cls := %s; dc_args := %s; dc_bound := %s; dc_obs := %s |}" % (
-                        E.blit(ff), E.pstr(cls), dargs(case.field_order()), dargs(case.bound_order()), emit_exn_text(obs)),
+                        E.blit(ff), E.pstr(cls), E.lst([darg(n) for n in case.field_order()]),
+                        E.lst(["(%s, %s)" % (darg(n), E.blit(not orc[n]["post"] or orc[n]["post"]["te_ve"]))
+                               for n in case.bound_order()]), emit_exn_text(obs)),
                     {"case": case, "mode": mode, "ff": ff}))
             if obs is not None and obs["helper"][0] == "ok" and not isinstance(obs["json"], tuple):
                 streams["parse"].append((
@@ -1132,7 +1148,7 @@ def run(rep, tier):
     if model_ok:
         specs = [("render", "rcase", ["render_mismatch", "render_hyps"]),
                  ("parse", "pcase", ["parse_mismatch", "parse_unmodelled"]),
-                 ("construct", "ccase", ["construct_mismatch"]),
+                 ("construct", "ccase", ["construct_mismatch", "construct_hyps"]),
                  ("deser", "dcase", ["deser_mismatch"]),
                  ("guard", "gcase", ["guard_mismatch", "guard_schema_bad", "guard_bare_under_hyps", "guard_hyps",
                                      "guard_unmodelled"])]
@@ -1180,6 +1196,8 @@ def run(rep, tier):
                 rep.cov["streams"]["correspondence:render"]["theorem_hypotheses_hold"] = len(res["render_hyps"])
             if name == "parse":
                 rep.cov["streams"]["correspondence:parse"]["outside_model_domain_skipped"] = len(res["parse_unmodelled"])
+            if name == "construct":
+                rep.cov["streams"]["correspondence:construct"]["theorem_hypotheses_hold"] = len(res["construct_hyps"])
             if name == "guard":
                 st = rep.cov["streams"]["correspondence:guard"]
                 st["theorem_hypotheses_hold"] = len(res["guard_hyps"])
